@@ -392,6 +392,9 @@ func (fx *FuncExec) applyContract(st *State, instr ssa.Instruction, fc *FuncCont
 	// frame
 	switch {
 	case fc.Pure || fc.ModNothing:
+		if fc.Fresh {
+			fx.bumpTop(st, Val{}) // the result is a new object: the allocation watermark moves
+		}
 	case fc.HasMod:
 		for _, m := range fc.Modifies {
 			fx.havocLocation(st, env, m)
